@@ -43,8 +43,10 @@ generated over {0, 1, 2, ≥ 3} (harness key `lowfds`, pinned cases in every run
 Not proved here: that dsh.c refines the LTS (trace correspondence of `checks/c03.py`: every run's projected trace is
 replayed through `FanG.step`, incl. the pdcp worker `_rcp_thread`); fairness of the real scheduler; workers whose
 command never ends (C07: `immortal_never_returns`), `pthread_create` failure and cancellation (^C^Z, C20) are
-outside these models; fanout 0 (the dispatcher then waits forever: C18); in `EndToEnd` the relay events are
-abstract (chunks arrive while the worker is in its read loop), a worker that gives up on its host at a timeout is
+outside these models; fanout 0 (the dispatcher then waits forever: C18).  The composed LTS of `EndToEnd` is tied to
+dsh.c the same way: runs whose reads / closes are logged go through `FanRelay.step` (relay mode of `pdshmodel fan`:
+a read outside the worker's loop, or a worker leaving its loop before its polled streams are over, is rejected);
+what the relay writes for given chunks is C05's correspondence; a worker that gives up on its host at a timeout is
 the Timed LTS's business (C07 `healthy_complete`).
 -/
 namespace PdshVerif.Props.C03
@@ -392,7 +394,7 @@ open PdshVerif.Dsh PdshVerif.Dsh.FanRelay PdshVerif.Relay
 /-- C03, whole statement, for every fanout ≥ 0, number of targets, schedule of dispatcher, workers and relay
     events, cutting of the output into chunks, number of spurious wake-ups, wait construct and signalling
     discipline: when dsh() has returned, for every target `i` the command was started exactly once and torn down
-    exactly once, and for each of its polled streams the stdio calls found in the GLOBAL output (all hosts
+    exactly once, and -- if its connect succeeded -- for each of its polled streams the stdio calls found in the GLOBAL output (all hosts
     interleaved) write exactly what the remote side sent on that stream, complete, in order, once, under `i`'s label
     (for contents in the relay's domain `Dom05`: no NUL byte, bounded line length, no rc marker split across the
     buffer — see Props/C05). -/
@@ -400,7 +402,7 @@ theorem returns_after_output_delivered (cfg : Cfg) (names : Nat → Bytes) {size
     (hm2 : sizeMeta ≤ 800) {b0 : PBuf} (hb0 : mkFifoBuf sizeMeta = some b0)
     {v : FanG.Variant} {f n : Nat} {sopt : Bool} {ls : List FanRelay.Label} {s : FanRelay.St}
     (he : FanRelay.Exec (FanRelay.init v f n sopt) ls s) (hf : FanG.Final s.fan) (i : Nat) (hi : i < n)
-    (strm : Bool) (hstrm : strm = true → sopt = true)
+    (hconn : s.nofd.contains i = false) (strm : Bool) (hstrm : strm = true → sopt = true)
     (hdom : Spec.Dom05 (markerOf (!strm)) (chunksOf s.evs (i, strm)).flatten = true) :
     (ls.filterMap projLabel).count (.w i .connectBegin) = 1 ∧
     (ls.filterMap projLabel).count (.w i .destroyEnd) = 1 ∧
@@ -409,7 +411,7 @@ theorem returns_after_output_delivered (cfg : Cfg) (names : Nat → Bytes) {size
   have hfe := fan_refinement he
   have h1 := G.exit_after_all hfe hf i hi
   refine ⟨h1.1, h1.2.1, ?_⟩
-  have hk := final_streams_complete he hf i hi strm hstrm
+  have hk := final_streams_complete he hf i hi hconn strm hstrm
   exact PdshVerif.C05.relay_lossless_any_interleaving cfg names hm1 hm2 hb0 s.evs (i, strm)
     (chunksOf s.evs (i, strm)) hk hdom
 
